@@ -261,6 +261,8 @@ type Region struct {
 	// Prepare runs before parameters are bound (to create objects for them).
 	Prepare  func(r *Run)
 	lastObjs map[string]*Obj
+	// LookupVal gives the value of a map lookup m[k] (default: a named opaque).
+	LookupVal func(r *Run, m, k Val, t types.Type) (v Val, has Val)
 }
 
 type Outcome struct {
@@ -762,6 +764,20 @@ func (r *Run) step(fr *frame, in ssa.Instruction) {
 	case *ssa.Lookup:
 		m := r.val(fr, x.X)
 		k := r.val(fr, x.Index)
+		if r.reg.LookupVal != nil {
+			et := x.Type()
+			if tup, ok := et.(*types.Tuple); ok {
+				et = tup.At(0).Type()
+			}
+			if v, has := r.reg.LookupVal(r, m, k, et); v != nil {
+				if x.CommaOk {
+					fr.env[x] = VTuple{v, has}
+				} else {
+					fr.env[x] = v
+				}
+				return
+			}
+		}
 		name := render(m) + "[" + render(k) + "]"
 		var v Val = VOpq{name}
 		if isInt(x.Type()) {
@@ -1181,6 +1197,19 @@ func (r *Run) SetCell(obj, path string, v Val) {
 	o.order = append(o.order, path)
 }
 
+// ClearCell forgets a memory cell so that the next read names it lazily.
+func (r *Run) ClearCell(obj, path string) {
+	for _, o := range r.objs {
+		if o.Name == obj {
+			for k := range o.cells {
+				if k == path || strings.HasPrefix(k, path+".") {
+					delete(o.cells, k)
+				}
+			}
+		}
+	}
+}
+
 type calleePanic struct {
 	fn   string
 	vals []Val
@@ -1194,6 +1223,7 @@ func InterpretSafe(reg *Region, w World) *Outcome { return Interpret(reg, w) }
 // MapWorld: integer symbols get concrete representative values (E3), atoms
 // get truth values; anything else is unknown.
 type MapWorld struct {
+	Strs  map[string]string // concrete strings for opaque string values
 	Ints  map[string]int64
 	Atoms map[string]bool
 	// AtomFn is asked when Atoms has no entry.
@@ -1222,7 +1252,26 @@ func (w *MapWorld) intOf(v Val) (int64, bool) {
 	return 0, false
 }
 
+func (w *MapWorld) strOf(v Val) (string, bool) {
+	switch x := v.(type) {
+	case VConst:
+		if x.V != nil && x.V.Kind() == constant.String {
+			return constant.StringVal(x.V), true
+		}
+	case VOpq:
+		if s, ok := w.Strs[x.Name]; ok {
+			return s, true
+		}
+	}
+	return "", false
+}
+
 func (w *MapWorld) Eq(a, b Val) (bool, bool) {
+	if x, ok := w.strOf(a); ok {
+		if y, ok := w.strOf(b); ok {
+			return x == y, true
+		}
+	}
 	if x, ok := w.intOf(a); ok {
 		if y, ok := w.intOf(b); ok {
 			return x == y, true
